@@ -174,6 +174,10 @@ class Model:
         for l in self.dirty(lang, kind, FACTOR_CLASSES[factor]):
             vias = sorted({v for c in FACTOR_CLASSES[factor] for v in l["via"].get(c, [])})
             why.append(f"{l['file']}:{l['line']} via {','.join(vias) or '?'}")
+        if factor == "hashseed":
+            # file order follows the hash-ordered set of nested namespaces; whatever depends on the order depends on the seed
+            for l in self.dirty(lang, kind, ["psModelCache", "psUniqueName", "siblings"]):
+                why.append(f"{l['file']}:{l['line']} processing order (hash-ordered nested namespaces) x {','.join(l['effective'])}")
         if factor == "hashseed" and limiter_on(lang, extra) and self.limiter_leak_possible(lang):
             # file order follows the hash-ordered set of nested namespaces; the limiter carries its counter along
             if any(r["kind"] == kind and r["firstNonBlank"] == "0" and r["emitsNothing"] == "0" for r in self.roots[lang]):
@@ -191,8 +195,8 @@ def where_of_diff(lang, path_a, path_b):
         return "length", d
     if lang == "py" and B85_LINE.match(a) and B85_LINE.match(b):
         return "pickled-model-literal", d
-    if "static_assert" in a or "is trying to use a serialization library" in a:
-        return "option-static-assert-message", d
+    if ".dsdl" in a and ".dsdl" in b:
+        return "dsdl-source-path", d
     if "Generated at" in a:
         return "generated-at-comment", d
     if a.lstrip().startswith("#include") or a.lstrip().startswith("import ") or a.lstrip().startswith("from "):
@@ -262,6 +266,7 @@ def run(ctx: common.Ctx):
     (scratch / "cwd1").mkdir(); (scratch / "cwd2" / "nested" / "dir").mkdir(parents=True)
     jobs, meta = [], {}
     T1, T2 = 981173106.0, 2208988800.0       # 2001-02-03, 2040-01-01
+    snaps = {iname: pr.snapshot_input(root, lookups) for iname, root, lookups in inputs}
     for ii, (iname, root, lookups) in enumerate(inputs):
         # two absolute locations, same relative layout
         locA = scratch / "locA" / f"in{ii}"
@@ -341,7 +346,7 @@ def run(ctx: common.Ctx):
                 continue
             rel = rels[0]
             where, d = where_of_diff(m["lang"], pathlib.Path(bmeta["out"]) / rel, pathlib.Path(m["out"]) / rel)
-            replay = {"input": m["input"], "lang": m["lang"], "options": m["extra"], "factor_varied": m["variant"],
+            replay = {"input": m["input"], "dsdl": snaps.get(m["input"]), "lang": m["lang"], "options": m["extra"], "factor_varied": m["variant"],
                       "base": {"hashseed": bmeta["hashseed"], "clock": bmeta["fake_time"], "cwd": bmeta["cwd"], "location": bmeta["loc"]},
                       "other": {"hashseed": m["hashseed"], "clock": m["fake_time"], "clock_step": m["fake_step"], "cwd": m["cwd"], "location": m["loc"]},
                       "file": rel, "n_differing_files_of_kind": len(rels), "first_differing_line": d,
@@ -362,7 +367,32 @@ def run(ctx: common.Ctx):
 
 
 def replay(ctx, path):
+    """Re-run the recorded pair (inputs are stored in the replay file) and report whether the file still differs."""
     r = json.loads(open(path).read())
     rp = r.get("replay", {})
-    print(json.dumps({"note": "re-run ./check C07 with the same seed; the pair is described by the replay record", "replay": rp}, indent=1)[:3000])
-    return 1
+    if not rp.get("dsdl"):
+        print("nothing to replay (no failing input in the file)")
+        ctx.cleanup()
+        return 1
+    scratch = ctx.scratch
+    jobs, outs = [], {}
+    for side in ("base", "other"):
+        cfg = rp[side]
+        same_loc = rp["base"]["location"] == rp["other"]["location"]
+        loc = scratch / ("locA" if (side == "base" or same_loc) else "elsewhere/deeper/x y")
+        root, lks = pr.restore_input(rp["dsdl"], loc / "in")
+        same_cwd = rp["base"]["cwd"] == rp["other"]["cwd"]
+        cwd = scratch / ("cwd1" if (side == "base" or same_cwd) else "cwd2/nested/dir")
+        cwd.mkdir(parents=True, exist_ok=True)
+        out = loc / f"out_{side}"
+        argv = ["--experimental-languages", "-l", rp["lang"], "-O", out] + [x for l in lks for x in ("-I", l)] + list(rp["options"]) + [root]
+        jobs.append({"name": side, "runs": [pr.make_run(argv, out, cwd)], "hashseed": cfg["hashseed"], "fake_time": cfg["clock"],
+                     "fake_step": cfg.get("clock_step", 0.0)})
+        outs[side] = out
+    res = pr.exec_jobs(common.REPO / "src", scratch, jobs)
+    a, b = res["base"][0], res["other"][0]
+    differs = a["files"].get(rp["file"]) != b["files"].get(rp["file"])
+    print(json.dumps({"file": rp["file"], "differs": differs, "first_differing_line": pr.first_diff(outs["base"] / rp["file"], outs["other"] / rp["file"]),
+                      "all_differing": pr.compare(a["files"], b["files"])[:10], "errors": [a["error"], b["error"]]}, indent=1))
+    ctx.cleanup()
+    return 1 if differs else 0
